@@ -115,6 +115,8 @@ theorem Frame.after (u : Unit) (e : Ev) : ∀ h ∈ u.after e, ∀ b, Frame (h b
   · exact Frame.rememberAfterAuth _
   · exact Frame.rememberAfterReset _
   · exact Frame.expireAfterAuth _
+  · exact Frame.expireAfterAuth _
+  · exact Frame.expireAfterAuth _
 
 theorem Frame.callHandlers (hs : List EvHandler) (hh : ∀ h ∈ hs, ∀ b, Frame (h b)) (b : Bool) :
     Frame (M.callHandlers hs b) := by
